@@ -1047,7 +1047,7 @@ def run_c02(ctx: kernel.Ctx, case: Dict[str, Any]) -> None:
                             if after_arch[k] != after_arch.get(ke):
                                 ctx.report("C02/target_architecture", f"agent {j} after {mut!r}: {k} has a different architecture than {ke}: "
                                                                       f"{_arch_delta(after_arch.get(ke), after_arch[k])}", **w.loc)
-                            elif mut != "None" and (k not in outs or ke not in outs or not torch.equal(outs[k], outs[ke])):
+                            elif k not in outs or ke not in outs or not torch.equal(outs[k], outs[ke]):  # "in every agent": also the ones that report 'None' and the protected elite
                                 ctx.report("C02/target_weights", f"agent {j} right after mutation {mut!r}: {k} does not compute what {ke} computes", **w.loc)
                 # (d) every network trained alongside the policy received the same architecture change
                 pol_name = ag.registry.policy
@@ -1335,6 +1335,23 @@ def run_c07(ctx: kernel.Ctx, case: Dict[str, Any]) -> None:
             if vd2 or bd2:
                 ctx.report(f"{pre}/diverges_after_restore", f"crash point {c}: after the same {len(case['suffix'])} events original and restored agent differ in {vd2[:5]} {bd2[:3]}",
                            path=case["path"], **w.loc)
+            elif case.get("second_round_trip", True):
+                # a resumed run is checkpointed again: the agent that came out of a checkpoint (and has moved on since) must round-trip as well, through either path
+                try:
+                    data2 = w.save_bytes(r_)
+                    for path2 in ("load", "load_checkpoint"):
+                        r2 = restore(w, r_, data2, path2, case)
+                        vd3, bd3 = equivalent_agent_diffs(w, r_, r2)
+                        if vd3 or bd3:
+                            ctx.report(f"{pre}/restore_differs:second_round_trip", f"crash point {c}: an agent restored through {case['path']}, continued for {len(case['suffix'])} events and saved "
+                                                                                    f"again does not come back through {path2}: {vd3[:5]} {bd3[:3]}", path=path2, **w.loc)
+                            break
+                    ctx.probe("second_round_trip")
+                except Exception as e:
+                    info = kernel.classify_exception(e, os.environ.get("VERIF_REPO", "/repo"))
+                    if info["where"] != "repo":
+                        raise
+                    ctx.report(f"{pre}/exception:{info['type']}@{info['site']}", f"second save / restore of a restored agent: {type(e).__name__}: {str(e)[:200]}", **w.loc)
         if w.cfg.get("wrapper"):
             ctx.probe("agent_wrapper_round_trip")
         ctx.state((w.cfg["algo"], w.cfg["obs"], w.cfg.get("wrapper"), case["path"], c, tuple(o["op"] + o.get("kind", "") for o in case["ops"][max(0, c - 2):c])))
